@@ -125,7 +125,12 @@ def parseEv (toks : List String) : Option (Ev × List String) :=
   | "putwttl" :: c :: k :: v :: w :: t :: rest =>
     do pure (.putWTtl (← c.toNat?) (← k.toNat?) (← v.toNat?) (← parseInt? w) (← t.toNat?), rest)
   | "upsert" :: c :: k :: v :: w :: t :: rm :: rest =>
-    do pure (.upsert (← c.toNat?) (← k.toNat?) (← parseOptNat? v) (← parseOptInt? w) (← parseOptNat? t) (rm == "1"), rest)
+    -- a request with an explicit weight ≤ 0, or with both a time-to-live and its removal, is refused by its builder
+    -- (Layer G, `Glue.lean`): it never reaches `put_or_update`, so it is not an event of this layer
+    do let w' ← parseOptInt? w
+       let t' ← parseOptNat? t
+       if (match w' with | some x => decide (x ≤ 0) | none => false) || (t'.isSome && rm == "1") then none
+       else pure (.upsert (← c.toNat?) (← k.toNat?) (← parseOptNat? v) w' t' (rm == "1"), rest)
   | "delete" :: c :: k :: rest => do pure (.delete (← c.toNat?) (← k.toNat?), rest)
   | "get" :: k :: rest => do pure (.get (← k.toNat?), rest)
   | "mget" :: ks :: rest => do pure (.multiGet (← (if ks == "-" then some [] else parseNatList? ks)), rest)
@@ -483,7 +488,11 @@ def parseReq? (toks : List String) : Option B.Req :=
   | ["weight"] => some .weight
   | ["getref", k] => do pure (.getRef (← k.toNat?))
   | ["shutdown"] => some .shutdown
-  | ["upsert", k, v, w, t, rm] => do pure (.upsert (← k.toNat?) (← parseOptNat? v) (← parseOptInt? w) (← parseOptNat? t) (rm == "1"))
+  | ["upsert", k, v, w, t, rm] =>
+    do let w' ← parseOptInt? w
+       let t' ← parseOptNat? t
+       if (match w' with | some x => decide (x ≤ 0) | none => false) || (t'.isSome && rm == "1") then none
+       else pure (.upsert (← k.toNat?) (← parseOptNat? v) w' t' (rm == "1"))
   | _ => none
 
 def parseBAct? (toks : List String) : Option (B.Act × List String) :=
